@@ -1,4 +1,6 @@
 import CCV.Lemmas.ApproxNewton
+import CCV.Lemmas.ApproxSqrt
+import CCV.Lemmas.ApproxGold
 /-
   C20 — approximate numeric operations stay close to the real function.
   Theorems about the executable model `CCV/Model/Approx.lean` (the functions the driver runs).
@@ -96,6 +98,19 @@ theorem newton_inversion_error (sg : Bool) {c : Nat} {d : Int} (hc : c ≤ 29) (
 example : newton false 64 10 5 3 none = some 341 := by decide
 example : (16:Int) * 3 ≤ 2 ^ 10 := by decide
 
+/-- **the cap range `c ≤ 29` of the Newton theorems is the full range in which the code is right**:
+    the constant built from the `i32` literal `1 << (cap + 1)` equals `2^(c+1)` iff `c ≤ 29`, for both
+    signednesses (`c = 30`: `i32::MIN`; `c ≥ 31`: the shift amount wraps modulo 32).  Wrap-around of
+    the 64-bit products would only start at `c = 31` (`(2^(c+1) − x·d)·x < 2^(2c+1)`), so the limit is
+    the literal, not the type: with `1u128 <<` (as in GoldschmidtDivision) `c = 30` would be covered. -/
+theorem newton_cap_range (sg : Bool) (c : Nat) : newtonConst sg 64 c = 2 ^ (c + 1) ↔ c ≤ 29 :=
+  newtonConst_eq_iff sg c
+
+/-- at cap 30 the conclusion of `newton_step_error` fails: from the bit-derived guess `2^28` for
+    `d = 3` (`x·d ≤ 2^30` holds) the next iterate is negative -/
+example : newtonConst true 64 30 = -(2 ^ 31) ∧ initInv 64 30 3 = 2 ^ 28
+    ∧ newtonStep true 64 30 3 (2 ^ 28) = -738197504 := by decide
+
 /-! ### (4) Goldschmidt division -/
 
 /-- denominator sequence of GoldschmidtDivision, caps `≤ 30`, both signednesses: with `E = 2^c - b`,
@@ -116,24 +131,170 @@ theorem goldschmidt_numerator_step (sg : Bool) {c : Nat} {a b : Int} (hc : c ≤
 
 example : goldStep false 64 10 (123456 * 8, 123 * 8) = (1026228, 1022) := by decide
 
+/-- **n-step QUOTIENT bound of GoldschmidtDivision**, by induction on the number `n` of loop rounds
+    (`iterations = n + 1`), for a supplied initial reciprocal guess `w` with `2^(c-1) ≤ d·w ≤ 2^c`
+    (the lower two thirds of the documented window; above it the method does not converge in the
+    rule-of-thumb count: known finding).  Caps `4 ≤ c ≤ 30`, both signednesses, dividend `a ≥ 0`,
+    divisor `d > 0`, `4n ≤ 2^c`; nothing wraps if some `M ≥ a·(2^c + 4n)/d` has `M·2^(c+1) < 2^63`
+    (`M` bounds every intermediate numerator, which approximates `a·2^c/d`).
+    The returned `q` satisfies, with denominators cleared (`B = 2^(2^n)`):
+    * `q·d − a·2^c ≤ 4·n·a`                      (`q − a·2^c/d ≤ 4n·a/d`: overshoot only through the
+      `2n` truncations of the denominator sequence), and
+    * `B·(a·2^c − q·d) ≤ 4·n·d·B + a·(2^c + 4·B)`  (`a·2^c/d − q ≤ 4n + (a/d)·(2^c/2^(2^n) + 4)`: the
+      truncation drift of at most `4n` units plus the quadratically convergent denominator error
+      `e_n ≤ 2^(-2^n) + 4/2^c` applied to the exact quotient). -/
+theorem goldschmidt_quotient_n_steps (sg : Bool) {c n : Nat} {a d w M : Int} (hc4 : 4 ≤ c) (hc : c ≤ 30)
+    (ha : 0 ≤ a) (hd : 0 < d) (hw : 0 ≤ w) (hlo : 2 ^ c ≤ 2 * (d * w)) (hhi : d * w ≤ 2 ^ c)
+    (hn : 4 * (n : Int) ≤ 2 ^ c)
+    (hM : a * (2 ^ c + 4 * (n : Int)) ≤ d * M) (hM63 : M * 2 ^ (c + 1) < 2 ^ 63) :
+    ∃ q, goldschmidt sg 64 c (n + 1) a d (some w) = some q ∧ 0 ≤ q ∧
+      q * d - a * 2 ^ c ≤ 4 * (n : Int) * a ∧
+      2 ^ (2 ^ n) * (a * 2 ^ c - q * d) ≤ 4 * (n : Int) * d * 2 ^ (2 ^ n) + a * (2 ^ c + 4 * 2 ^ (2 ^ n)) := by
+  obtain ⟨q, hq, b, hinv⟩ := gold_nstep sg hc4 hc ha hd hw hlo hhi hn hM hM63
+  have := goldInv_quotient ha hd hinv
+  exact ⟨q, hq, hinv.1, this.1, this.2⟩
+
+/-- the operation as instantiated WITHOUT a supplied approximation (bit-derived guess), on the domain
+    the op documents (`0 < d < 2^c`; `a ≥ 0` small enough for the no-wrap guard): same bound. -/
+theorem goldschmidt_division_error (sg : Bool) {c n : Nat} {a d M : Int} (hc4 : 4 ≤ c) (hc : c ≤ 30)
+    (ha : 0 ≤ a) (hd : 0 < d) (hdc : d < 2 ^ c) (hn : 4 * (n : Int) ≤ 2 ^ c)
+    (hM : a * (2 ^ c + 4 * (n : Int)) ≤ d * M) (hM63 : M * 2 ^ (c + 1) < 2 ^ 63) :
+    ∃ q, goldschmidt sg 64 c (n + 1) a d none = some q ∧ 0 ≤ q ∧
+      q * d - a * 2 ^ c ≤ 4 * (n : Int) * a ∧
+      2 ^ (2 ^ n) * (a * 2 ^ c - q * d) ≤ 4 * (n : Int) * d * 2 ^ (2 ^ n) + a * (2 ^ c + 4 * 2 ^ (2 ^ n)) := by
+  obtain ⟨q, hq, b, hinv⟩ := gold_bits_nstep sg hc4 hc ha hd hdc hn hM hM63
+  have := goldInv_quotient ha hd hinv
+  exact ⟨q, hq, hinv.1, this.1, this.2⟩
+
+/-- non-vacuity: 1000/7 with cap 10, 5 iterations (n = 4 rounds): exact 2^10·1000/7 = 146285.7…,
+    returned 146534 (0.17 % above, within `4n·a/d = 2285`: the truncations of the denominator sequence
+    act on the quotient relatively, `≈ n/2^c`); the hypotheses hold with M = 2^18 -/
+example : goldschmidt false 64 10 5 1000 7 none = some 146534
+    ∧ (1000:Int) * (2 ^ 10 + 4 * (4:Nat)) ≤ 7 * 2 ^ 18 ∧ (2:Int) ^ 18 * 2 ^ (10 + 1) < 2 ^ 63
+    ∧ 4 * ((4:Nat):Int) ≤ 2 ^ 10 := by decide
+
+/-- on the domain the op documents (dividend and divisor in `(0, 2^(c-1))`; here even `0 ≤ a < 2^(c-1)`,
+    `0 < d < 2^c`) the no-wrap guard holds for every cap `4 ≤ c ≤ 20` (`M = 4^c`, `4^c·2^(c+1) ≤ 2^61`);
+    for larger caps small divisors make the numerator `≈ a·2^c/d` overflow, as the op's doc warns. -/
+theorem goldschmidt_documented_domain (sg : Bool) {c n : Nat} {a d : Int} (hc4 : 4 ≤ c) (hc : c ≤ 20)
+    (ha : 0 ≤ a) (hac : 2 * a ≤ 2 ^ c) (hd : 0 < d) (hdc : d < 2 ^ c) (hn : 4 * (n : Int) ≤ 2 ^ c) :
+    ∃ q, goldschmidt sg 64 c (n + 1) a d none = some q ∧ 0 ≤ q ∧
+      q * d - a * 2 ^ c ≤ 4 * (n : Int) * a ∧
+      2 ^ (2 ^ n) * (a * 2 ^ c - q * d) ≤ 4 * (n : Int) * d * 2 ^ (2 ^ n) + a * (2 ^ c + 4 * 2 ^ (2 ^ n)) := by
+  have hP : (0:Int) < 2 ^ c := two_pow_pos' c
+  have hn0 : (0:Int) ≤ (n : Int) := Int.natCast_nonneg _
+  apply goldschmidt_division_error sg (M := 2 ^ c * 2 ^ c) hc4 (by omega) ha hd hdc hn
+  · -- a (P + 4n) ≤ (P/2)(2P) = P² ≤ d P²
+    have h1 : a * (2 ^ c + 4 * (n : Int)) ≤ a * (2 * 2 ^ c) := mul_le_mul_of_nonneg_left (by linarith) ha
+    have h2 : (2 * a) * 2 ^ c ≤ 2 ^ c * 2 ^ c := mul_le_mul_of_nonneg_right hac (le_of_lt hP)
+    have h3 : 1 * (2 ^ c * 2 ^ c) ≤ d * (2 ^ c * 2 ^ c) :=
+      mul_le_mul_of_nonneg_right (by linarith) (by positivity)
+    linarith
+  · have h20 : (2:Int) ^ c ≤ 2 ^ 20 := pow_le_pow_right₀ (by decide) hc
+    have hsucc : (2:Int) ^ (c + 1) = 2 * 2 ^ c := by rw [pow_succ]; ring
+    rw [hsucc]
+    have h1 : (2:Int) ^ c * 2 ^ c ≤ 2 ^ 20 * 2 ^ 20 := mul_le_mul h20 h20 (le_of_lt hP) (by norm_num)
+    have h2 : (2:Int) ^ c * 2 ^ c * (2 * 2 ^ c) ≤ 2 ^ 20 * 2 ^ 20 * (2 * 2 ^ 20) :=
+      mul_le_mul h1 (by linarith) (by positivity) (by norm_num)
+    have : (2:Int) ^ 20 * 2 ^ 20 * (2 * 2 ^ 20) < 2 ^ 63 := by norm_num
+    linarith
+
+/-- non-vacuity: cap 12, 6 iterations, 2047/3: exact 2^12·2047/3 = 2794837.3…, returned 2796158 (0.05 % above) -/
+example : goldschmidt true 64 12 6 2047 3 none = some 2796158 ∧ 2 * (2047:Int) ≤ 2 ^ 12 := by decide
+/-! ### (4b) Newton inverse square root -/
+
 /-- InverseSqrt, one iteration, caps `2 ≤ c ≤ 30`, both signednesses, every `d > 0` and iterate with
-    `0 ≤ x`, `d·x² ≤ 4^c` (at most `2^c/√d`, e.g. the bit-derived guess): nothing wraps and the step is
-    `x' = ⌊(3·2^(c-1) - ⌊d·x²/2^(c+1)⌋)·x / 2^c⌋` (`x·(3/2 - d·x²/2)` in fixed point, two truncations).
-    The error recurrence of this step is NOT proved (`InverseSqrtErrorStatement`). -/
+    `0 ≤ x`, `d·x² ≤ (2^c+2)²` — the guard that IS invariant under the iteration (`d·x² ≤ 4^c` is not:
+    the first floor pushes the step up, see the example below): nothing wraps and the step is
+    `x' = ⌊(3·2^(c-1) - ⌊d·x²/2^(c+1)⌋)·x / 2^c⌋` (`x·(3/2 - d·x²/2)` in fixed point, two truncations). -/
+theorem inverse_sqrt_step_formula (sg : Bool) {c : Nat} {d x : Int} (hc2 : 2 ≤ c) (hc : c ≤ 30)
+    (hd : 0 < d) (hx : 0 ≤ x) (hdx : d * x * x ≤ (2 ^ c + 2) * (2 ^ c + 2)) :
+    sqrtStep sg 64 c d x = ((3 * 2 ^ (c - 1) - (d * x * x) / 2 ^ (c + 1)) * x) / 2 ^ c :=
+  sqrtStep_eq' sg hc2 hc hd hx hdx
+
+/-- corollary (the statement proved first, under the narrower guard `d·x² ≤ 4^c`). -/
 theorem inverse_sqrt_step_formula_partial (sg : Bool) {c : Nat} {d x : Int} (hc2 : 2 ≤ c) (hc : c ≤ 30)
     (hd : 0 < d) (hx : 0 ≤ x) (hdx : d * x * x ≤ 4 ^ c) :
     sqrtStep sg 64 c d x = ((3 * 2 ^ (c - 1) - (d * x * x) / 2 ^ (c + 1)) * x) / 2 ^ c :=
   sqrtStep_eq sg hc2 hc hd hx hdx
 
 example : sqrtStep false 64 10 17 128 = 175 := by decide
+/-- the iterate can overshoot `2^c/√d`: `3·36² = 3888 ≤ 4^6 = 4096 < 4107 = 3·37²` -/
+example : sqrtStep false 64 6 3 36 = 37 := by decide
 
-/-- not proved: with `u = d·x²/4^c` and `e = 1 - u` the exact step gives `e' = (3e² + e³)/4`; the
-    statement with the two rounding terms, and the n-step bound, are left open (dense sweep only). -/
+/-- **one-step error recurrence of InverseSqrt**, with the two floors explicit.  `Q = 4^c`,
+    `E = Q − d·x²` (`e = E/Q = 1 − d·x²/4^c`), `y` the next iterate, `E' = Q − d·y²`:
+    * exact linear form with both remainders: `2Q·y = (2Q + E + r₁)·x − 2·2^c·r₂`,
+      `0 ≤ r₁ < 2^(c+1)` (floor of `d·x²/2^(c+1)`), `0 ≤ r₂ < 2^c` (final floor) — without them
+      `y = x·(3 − u)/2`, whose error is exactly `(3e² + e³)/4`;
+    * the guard is invariant: `0 ≤ y`, `d·y² ≤ (2^c+2)²`;
+    * upper: `4Q²·E' < E²·(3Q + E) + 4Q²·d·(2y+1)`, i.e. `e' < (3e²+e³)/4 + d·(2y+1)/4^c`
+      (quadratic term + at most one unit of `y` lost in the final floor);
+    * lower: `4Q²·E' ≥ E²·(3Q + E) − (4·2^c·(3Q − D) + 4Q)·D`, `D = d·x²`
+      (the first floor raises `y` by less than `x/2^c`). -/
+theorem inverse_sqrt_step_error (sg : Bool) {c : Nat} {d x : Int} (hc2 : 2 ≤ c) (hc : c ≤ 30) (hd : 0 < d)
+    (hx : 0 ≤ x) (hdx : d * x * x ≤ (2 ^ c + 2) * (2 ^ c + 2)) :
+    (∃ r₁ r₂ : Int, 0 ≤ r₁ ∧ r₁ < 2 ^ (c + 1) ∧ 0 ≤ r₂ ∧ r₂ < 2 ^ c ∧
+      2 * 4 ^ c * sqrtStep sg 64 c d x = (2 * 4 ^ c + (4 ^ c - d * x * x) + r₁) * x - 2 * 2 ^ c * r₂) ∧
+    0 ≤ sqrtStep sg 64 c d x ∧
+    d * sqrtStep sg 64 c d x * sqrtStep sg 64 c d x ≤ (2 ^ c + 2) * (2 ^ c + 2) ∧
+    4 * 4 ^ c * 4 ^ c * (4 ^ c - d * sqrtStep sg 64 c d x * sqrtStep sg 64 c d x)
+      < (4 ^ c - d * x * x) ^ 2 * (3 * 4 ^ c + (4 ^ c - d * x * x))
+        + 4 * 4 ^ c * 4 ^ c * (d * (2 * sqrtStep sg 64 c d x + 1)) ∧
+    (4 ^ c - d * x * x) ^ 2 * (3 * 4 ^ c + (4 ^ c - d * x * x))
+        - (4 * 2 ^ c * (3 * 4 ^ c - d * x * x) + 4 * 4 ^ c) * (d * x * x)
+      ≤ 4 * 4 ^ c * 4 ^ c * (4 ^ c - d * sqrtStep sg 64 c d x * sqrtStep sg 64 c d x) := by
+  obtain ⟨r₁, r₂, h1, h2, h3, h4, _, h5⟩ := sqrtStep_linear sg hc2 hc hd hx hdx
+  refine ⟨⟨r₁, r₂, h1, h2, h3, h4, ?_⟩, sqrt_error_recurrence sg hc2 hc hd hx hdx⟩
+  rw [h5]; ring
+
+/-- non-vacuity: c = 10, d = 17, x = 175 ↦ 219: `E = 527951`, `E' = 233239`;
+    `4Q²E' ≈ 1.026·10^18 < E²(3Q+E) + 4Q²·d·(2y+1) ≈ 1.057·10^18` -/
+example : sqrtStep true 64 10 17 175 = 219 ∧ (17:Int) * 175 * 175 ≤ (2 ^ 10 + 2) * (2 ^ 10 + 2)
+    ∧ (4:Int) * 4 ^ 10 * 4 ^ 10 * (4 ^ 10 - 17 * 219 * 219)
+      < (4 ^ 10 - 17 * 175 * 175) ^ 2 * (3 * 4 ^ 10 + (4 ^ 10 - 17 * 175 * 175))
+        + 4 * 4 ^ 10 * 4 ^ 10 * (17 * (2 * 219 + 1)) := by decide
+
+/-- the coarse form recorded earlier as the open statement: for `0 ≤ e ≤ 1`,
+    `e' ≤ e² + 4·d·(y+1)/4^c` (the hypothesis `4^(c-1) ≤ d·x²` is not needed). -/
 def InverseSqrtErrorStatement : Prop :=
   ∀ (sg : Bool) (c : Nat) (d x : Int), 2 ≤ c → c ≤ 30 → 0 < d → 0 ≤ x → d * x * x ≤ 4 ^ c →
     4 ^ (c - 1) ≤ d * x * x →
     let y := sqrtStep sg 64 c d x
     4 ^ c * (4 ^ c - d * y * y) ≤ (4 ^ c - d * x * x) ^ 2 + 4 ^ c * (4 * d * (y + 1))
+
+/-- the open statement holds (it is a weakening of `inverse_sqrt_step_error`). -/
+theorem inverse_sqrt_error_statement : InverseSqrtErrorStatement :=
+  fun sg _ _ _ hc2 hc hd hx hdx _ => sqrt_error_coarse sg hc2 hc hd hx hdx
+
+/-- **n-step bound of InverseSqrt**, by induction on `n`: from any start with `1/4 ≤ d·x₀²/4^c ≤ 1`
+    (`0 ≤ e₀ ≤ 3/4`), for any `T ≥ √d` with rounding budget `ρ = T·(2·2^c + 4 + T)/4^c ≤ 1/16`
+    (`ρ ≈ 2√d/2^c`: one unit of the result `2^c/√d`, relative, twice), after `n ≥ 2` iterations the
+    iterate `y` satisfies the no-wrap guard `d·y² ≤ (2^c+2)²` (so `e_n ≥ −(4·2^c+4)/4^c`) and
+    `e_n = 1 − d·y²/4^c ≤ 2^(-2^(n-1)) + 4ρ` (cleared of denominators). -/
+theorem inverse_sqrt_n_steps (sg : Bool) {c : Nat} {d x T : Int} (hc2 : 2 ≤ c) (hc : c ≤ 30) (hd : 0 < d)
+    (hT : 0 < T) (hdT : d ≤ T * T) (h16 : 16 * (T * (2 * 2 ^ c + 4 + T)) ≤ 4 ^ c)
+    (hx : 0 ≤ x) (hlo : 4 ^ c ≤ 4 * (d * x * x)) (hhi : d * x * x ≤ 4 ^ c) (n : Nat) (hn : 2 ≤ n) :
+    let y := sqrtIter sg 64 c d n x
+    0 ≤ y ∧ d * y * y ≤ (2 ^ c + 2) * (2 ^ c + 2) ∧
+      2 ^ (2 ^ (n - 1)) * (4 ^ c - d * y * y)
+        ≤ 4 ^ c + 4 * (T * (2 * 2 ^ c + 4 + T)) * 2 ^ (2 ^ (n - 1)) :=
+  sqrt_nstep sg hc2 hc hd hT hdT h16 hx hlo hhi n hn
+
+/-- the operation as instantiated without a supplied approximation (bit-derived guess): caps
+    `2 ≤ c ≤ 30`, every `d > 0` with `ρ ≤ 1/16` (roughly `d ≤ 4^c/1024`), every `n ≥ 2`. -/
+theorem inverse_sqrt_error (sg : Bool) {c : Nat} {d T : Int} (hc2 : 2 ≤ c) (hc : c ≤ 30) (hd : 0 < d)
+    (hT : 0 < T) (hdT : d ≤ T * T) (h16 : 16 * (T * (2 * 2 ^ c + 4 + T)) ≤ 4 ^ c) (n : Nat) (hn : 2 ≤ n) :
+    ∃ y, inverseSqrt sg 64 c n d none = some y ∧
+      0 ≤ y ∧ d * y * y ≤ (2 ^ c + 2) * (2 ^ c + 2) ∧
+      2 ^ (2 ^ (n - 1)) * (4 ^ c - d * y * y)
+        ≤ 4 ^ c + 4 * (T * (2 * 2 ^ c + 4 + T)) * 2 ^ (2 ^ (n - 1)) :=
+  sqrt_bits_nstep sg hc2 hc hd hT hdT h16 n hn
+
+/-- non-vacuity: c = 10, d = 17, T = 5, 4 iterations: 2^10/√17 = 248.35…, returned 248;
+    `2^8·(4^10 − 17·248²) = 770048 ≤ 4^10 + 4·10285·2^8` -/
+example : inverseSqrt false 64 10 4 17 none = some 248 ∧ (17:Int) ≤ 5 * 5
+    ∧ (16:Int) * (5 * (2 * 2 ^ 10 + 4 + 5)) ≤ 4 ^ 10 := by decide
 
 /-! ### (5) piecewise-linear approximation -/
 
